@@ -595,3 +595,17 @@ pub fn mul_dec_id(this: &mut U256, other: &U256, modulo: &U256, _inv: u64) {
         *this = U256::from(havoc_below(&m));
     }
 }
+
+/// cheap product contract for harnesses that do not need the encode/decode bijection: an arbitrary
+/// canonical value, zero exactly when a (canonical) factor is zero
+#[cfg(kani)]
+pub fn mul_havoc_z(this: &mut U256, other: &U256, modulo: &U256, _inv: u64) {
+    let m = [modulo[0], modulo[1], modulo[2], modulo[3]];
+    let a = [this[0], this[1], this[2], this[3]];
+    let b = [other[0], other[1], other[2], other[3]];
+    let o = havoc_below(&m);
+    if lt(&a, &m) && lt(&b, &m) {
+        kani::assume(is0(&o) == (is0(&a) || is0(&b)));
+    }
+    *this = U256::from(o);
+}
